@@ -374,3 +374,7 @@ fn c09_managed_error_new_and_drop() {
     }
     forget(rt);
 }
+
+// ManagedXValue::new + Drop (the same contract as ManagedXError above, payloads Bool / Float / Short Int) was
+// tried as `c09_managed_value_new_and_drop`: no CBMC verdict in 20 min (XValue::size and the drop glue of
+// XValue reach `dyn XNativeValue` and the function variants).  Not registered; listed as unreached.
